@@ -719,7 +719,13 @@ func updateEdgeInfo(source MarkWithAccessPath, dest GraphNode, info *ConditionIn
 		outMap[dest] = append(edgeInfos, EdgeInfo{relPath, source.Mark.Index.Value, info})
 	}
 
-	addInEdge(dest, sourceNode, EdgeInfo{relPath, source.Mark.Index.Value, info})
+	inIndex := source.Mark.Index.Value
+	if prev, ok := dest.In()[sourceNode]; ok && prev.Index != inIndex {
+		// There is a single incoming EdgeInfo per source node. When edges with different tuple indices flow from
+		// the same source, the index of the incoming edge is not used (< 0) so that all indices are considered.
+		inIndex = -1
+	}
+	addInEdge(dest, sourceNode, EdgeInfo{relPath, inIndex, info})
 }
 
 // addCallArgEdge adds an edge in the summary from a mark to a function call argument.
